@@ -30,6 +30,7 @@ BOUNDS = {'quick': {'perturbed_places': 1, 'widths': [0, 2, 8], 'stat_deviations
 
 LEADS = [b' ', b'\t', b'     ']
 TRAILS = [b'', b' ', b'\t ']
+COMMENT_TRAILS = [b'', b'\t', b' \t ']
 
 
 def lua_mod():
@@ -211,6 +212,20 @@ def check_program(prog, res, tier, fam):
                     else:
                         group.append(build(lines) + ld + ct + b'\n')
                 variants.append(('comment-group', i, group, ct))
+            # blanks (incl. TABs) after an own-line comment: the line-comment token swallows them, the output may not
+            # keep them
+            for ct in ((b'-- c', b'--[[c]]') if i % 2 else (b'// c', b'--[[c]]')):
+                group = []
+                for tr in COMMENT_TRAILS:
+                    if i < n:
+                        group.append(build(lines, comments={i: (b'', ct + tr)}))
+                    else:
+                        group.append(build(lines) + ct + tr + b'\n')
+                variants.append(('comment-group', i, group, ct))
+        # an end-of-line comment after each line, followed by blanks / TABs
+        for i in range(n):
+            for ct in ((b' -- c',) if i % 2 else (b'// c',)):
+                variants.append(('eolcomment-group', i, [build(lines, trail={i: ct + tr}) for tr in COMMENT_TRAILS], ct.strip()))
         # the last line left unterminated, with and without blanks after it: one output for all of them
         nonl = build(lines)[:-1]
         variants.append(('eof-group', n - 1, [nonl, nonl + b' ', nonl + b'\t ', nonl + b'    '], None))
@@ -249,9 +264,15 @@ def check_program(prog, res, tier, fam):
                 if not check_output_shape(prog, payload[0], outs[0], w, res, case,
                                           ('comment%s|' % extra.decode()[:2] if extra else 'eof|' if kind == 'eof-group' else 'blank|') + tail):
                     continue
+                bad = next((k_ for k_, o in enumerate(outs) if any(ln_.endswith((b' ', b'\t')) for ln_ in o.split(b'\n'))), None)
+                if bad is not None and kind in ('comment-group', 'eolcomment-group'):
+                    res.violation('C10|trailing-blank|after-comment:%s' % extra.decode()[:2],
+                                  'luafmt(%r, %d) = %r: a line ends in blanks' % (payload[bad], w, outs[bad]),
+                                  {'src': payload[bad], 'width': w, 'family': fam, 'variant': kind, 'base': base, 'group': payload})
+                    continue
                 for src, o in zip(payload[1:], outs[1:]):
                     if o != outs[0]:
-                        what = ('comment:%s' % extra.decode()[:2]) if kind == 'comment-group' else 'eof-blanks' if kind == 'eof-group' else 'blank-run'
+                        what = ('comment:%s' % extra.decode()[:2]) if kind in ('comment-group', 'eolcomment-group') else 'eof-blanks' if kind == 'eof-group' else 'blank-run'
                         res.violation('C10|%s-sensitive' % what,
                                       'luafmt(%r, %d) = %r but luafmt(%r, %d) = %r' % (payload[0], w, outs[0], src, w, o),
                                       {'src': src, 'width': w, 'family': fam, 'variant': kind, 'base': base,
